@@ -27,7 +27,7 @@ ASSUMPTIONS = [
     "link keys beyond the configured key-table size, fields a version cannot store (v4: frame counters, children below v9) and the EUI64 when it cannot be rewritten are excluded, as the statement says",
     "command payload schemas inside the NCP model are bellows' own tables",
 ]
-PROBES = ["eui64.rewritten_nv3", "eui64.not_rewritable", "eui64.same", "eui64.custom_before", "eui64.unknown", "hashed_tclk.given", "hashed_tclk.generated", "link_keys.some", "link_keys.over_capacity", "link_keys.gap_in_table", "read_failed_on_unanswered_command", "read_returned_despite_unanswered_command",
+PROBES = ["eui64.rewritten_nv3", "eui64.not_rewritable", "eui64.same", "eui64.custom_before", "eui64.unknown", "hashed_tclk.given", "hashed_tclk.generated", "link_keys.some", "link_keys.over_capacity", "link_keys.gap_in_table", "read_failed_on_unanswered_command", "read_returned_despite_unanswered_command", "write_failed_on_unanswered_command", "write_returned_despite_unanswered_command",
           "children.some", "tc_address.unknown", "status_event_before_response", "token_api_missing", "mask_without_channel"]
 
 VERSIONS = list(range(4, 15))
@@ -65,10 +65,13 @@ def plan(tier):
         ks = list(range(0, 40)) + list(range(40, 330, 3 if tier == "thorough" else 9))
         for i in range(0, len(ks), 8):
             sweeps.append(("grid", {"V": V, "cap": 3, "tmpl": 2, "sched": False, "drop_read": ks[i:i + 8]}))
+        kw = list(range(0, 150, 2 if tier == "thorough" else 5))
+        for i in range(0, len(kw), 8):
+            sweeps.append(("grid", {"V": V, "cap": 0 if V >= 9 else 3, "tmpl": 2, "sched": False, "drop_write": kw[i:i + 8]}))
     return {
         "sweeps": sweeps,
         "exhaustive": "versions 4..14 x capability variant {NV3 restored-EUI64 token; token API but no such token; token API answers invalidCommand; plain; NV3 token already holding a custom EUI64 (v9+)} x 4 settings templates",
-        "random": [("random", {}, 3), ("erase", {}, 1), ("dropread", {}, 1)],
+        "random": [("random", {}, 3), ("erase", {}, 1), ("dropread", {}, 1), ("dropwrite", {}, 1)],
         "runs": 250 if tier == "quick" else None,
         "budget_s": 60 if tier == "quick" else 900,
         "batch": 4,
@@ -141,11 +144,12 @@ def make_settings(tape, tmpl, ncp_eui):
 
 
 def run(scenario, params, tape, detail=False):
-    if isinstance(params.get("drop_read"), list):
-        # several cells in one run record: the k-th command of the read-back goes unanswered, for each listed k
+    multi = next((key for key in ("drop_read", "drop_write") if isinstance(params.get(key), list)), None)
+    if multi:
+        # several cells in one run record: the k-th command of the read-back (or of the write) goes unanswered, for each listed k
         out = None
-        for k in params["drop_read"]:
-            r = run(scenario, dict(params, drop_read=k), tape, detail)
+        for k in params[multi]:
+            r = run(scenario, dict(params, **{multi: k}), tape, detail)
             if out is None:
                 out = r
                 out["sigs"] = {out.pop("sig")}
@@ -191,7 +195,7 @@ def run(scenario, params, tape, detail=False):
         elif cap == 2:
             ncp.has_token_data = False
             probe("token_api_missing")
-    ev_delay = (0.0, 0.0, 0.002, 0.05)[tape.draw(4, "evdelay")] if scenario in ("random", "erase", "dropread") else (0.0, 0.002)[params.get("tmpl", 0) % 2]
+    ev_delay = (0.0, 0.0, 0.002, 0.05)[tape.draw(4, "evdelay")] if scenario in ("random", "erase", "dropread", "dropwrite") else (0.0, 0.002)[params.get("tmpl", 0) % 2]
     ncp.cb_delay = lambda what: ev_delay
     if ev_delay == 0.0:
         probe("status_event_before_response")
@@ -205,6 +209,20 @@ def run(scenario, params, tape, detail=False):
         app = await rig.start_app()
         st["eui_before"] = bytes(ncp.eui64)
         st["ktsize_configured"] = ncp._key_table_size()  # what connect()'s configuration write left the NCP with
+        dropw = params.get("drop_write")
+        if scenario == "dropwrite":
+            dropw = tape.draw(160, "drop_write")
+        if dropw is not None:
+            base_w = len(ncp.requests)
+            orig_deliver_w = ncp.deliver
+
+            def deliver_w(req, payload):
+                if req.idx == base_w + dropw and not st.get("dropped_w"):
+                    st["dropped_w"] = req.name  # never answered: the host's 10 s command timeout
+                    return
+                orig_deliver_w(req, payload)
+
+            ncp.deliver = deliver_w
         try:
             await app.write_network_info(network_info=ni, node_info=node)
         except Exception as e:
@@ -212,6 +230,9 @@ def run(scenario, params, tape, detail=False):
             import traceback
             st["tb"] = traceback.format_exc()
             return
+        finally:
+            if dropw is not None:
+                ncp.deliver = orig_deliver_w
         st["write"] = ("ok",)
         st["sec_calls"] = list(ncp.sec_calls)
         st["ncp_after_write"] = {"keys": dict(ncp.key_table), "ktsize": ncp._key_table_size(), "nwk_fc": ncp.nwk_fc, "aps_fc": ncp.aps_fc}
@@ -255,6 +276,8 @@ def run(scenario, params, tape, detail=False):
     tag = f"v{V} cap={cap}"
     if outcome != "done":
         viol.append(("C14.rt", "sim-" + outcome, f"{tag}: simulation ended with {outcome}: {val!r}"))
+    elif st.get("write", ("",))[0] != "ok" and st.get("dropped_w"):
+        probe("write_failed_on_unanswered_command")  # allowed under a fault; a write that reports success is held to the round trip below
     elif st.get("write", ("",))[0] != "ok":
         viol.append(("C14.rt", "write-raised", f"{tag}: write_network_info raised {st['write'][1]}; {st.get('tb', '')[-400:]}"))
     elif st.get("read", ("",))[0] != "ok" and st.get("dropped"):
@@ -262,6 +285,9 @@ def run(scenario, params, tape, detail=False):
     elif st.get("read", ("",))[0] != "ok":
         viol.append(("C14.rt", "read-raised", f"{tag}: load_network_info raised {st['read'][1]}; {st.get('tb', '')[-400:]}"))
     else:
+        if st.get("dropped_w"):
+            probe("write_returned_despite_unanswered_command")
+            tag += f" (write command {st['dropped_w']} never answered, write_network_info returned normally)"
         if st.get("dropped"):
             probe("read_returned_despite_unanswered_command")
             tag += f" (read-back command {st['dropped']} never answered)"
